@@ -21,7 +21,7 @@ def main():
     opt = dict(zip(a[5::2], a[6::2]))
     demo_args = opt.get("--demo-args", "")
     checks = [c for c in opt.get("--checks", prop).split(",") if c]
-    wt = f"/tmp/seed_{prop}"
+    wt = opt.get("--wt", f"/tmp/seed_{prop}")
     meta = {"seed_id": sid, "property": prop, "needs_to_manifest": opt.get("--needs", ""), "source": "independent sub-agent (given only the property text and a scratch worktree)",
             "base_commit": subprocess.run("git -C /repo rev-parse --short HEAD", shell=True, stdout=subprocess.PIPE, text=True).stdout.strip(), "ran": []}
     patch = os.path.abspath(patch); demo = os.path.abspath(demo)
